@@ -1,6 +1,8 @@
 import NemoVerif.Drive.Common
 import NemoVerif.Models.LlmText
 import NemoVerif.Models.LlmGen
+import NemoVerif.Models.LlmAssemble
+import NemoVerif.Generated.C17Assembly
 
 namespace NemoVerif.Drive.C17
 open Lean NemoVerif NemoVerif.Drive NemoVerif.Py NemoVerif.Py.Str NemoVerif.LlmText
@@ -80,7 +82,8 @@ def allOf (s : Str) (k : Nat) (p : Parser) : Json :=
     ("escape_u", js (escapeFlowNameU s)),
     ("indent", js (indent (lit "  ") s)),
     ("splitlines_keep", jlist (splitLinesKeep s)),
-    ("post_user_intent_v2", js (postUserIntentV2 p s))
+    ("post_user_intent_v2", js (postUserIntentV2 p s)),
+    ("start_action", jopt js (LlmAssemble.startActionName s))
   ]
 
 def ctxOfJson (j : Json) : Except String (List (Str × CtxVal)) := do
@@ -132,8 +135,43 @@ def evJson : Ev → Json
   | .step n => Json.mkObj [("type", "step"), ("n", Json.num (JsonNumber.fromNat n))]
   | .hidePrevTurn => Json.mkObj [("type", "hide_prev_turn")]
 
+
+/-- an event of the assembly model from JSON: {"type", "script"?, "final_script"?, "action_uid"?, "keys": [..]} -/
+def asmEvOfJson (i : Nat) (j : Json) : Except String LlmAssemble.Ev := do
+  let t ← str j "type"
+  let o := fun (k : String) => match j.getObjVal? k with
+    | .ok (.str x) => some x.toList
+    | _ => none
+  let keys : List Str := match j.getObjVal? "keys" with
+    | .ok (.arr a) => a.toList.filterMap fun e => match e with | .str x => some x.toList | _ => none
+    | _ => []
+  pure { id := i, type := t, script := o "script", finalScript := o "final_script", actionUid := o "action_uid", keys := keys }
+
+def asmEvsOfJson (j : Json) : Except String (List LlmAssemble.Ev) := do
+  let a ← (← j.getObjVal? "events").getArr?
+  let rec go (i : Nat) : List Json → Except String (List LlmAssemble.Ev)
+    | [] => pure []
+    | x :: xs => do
+      let e ← asmEvOfJson i x
+      let rest ← go (i + 1) xs
+      pure (e :: rest)
+  go 0 a.toList
+
 def handle (op : String) (j : Json) : Except String Json := do
   match op with
+  | "asm" =>
+    -- the response assembly of generate_async on a list of new events (spec regenerated from llmrails.py)
+    let evs ← asmEvsOfJson j
+    let sp := NemoVerif.Generated.C17Assembly.spec
+    if (optStr j "v").getD "1.0" == "2.x" then
+      pure (jex (fun (m : LlmAssemble.Msg2) => Json.mkObj [
+        ("content", js m.content),
+        ("tool_calls", Json.arr (m.toolCalls.map fun t => Json.mkObj [("id", js t.id), ("name", js t.name), ("args", jlist t.args)]).toArray),
+        ("events", Json.arr (m.events.map fun e => Json.num (JsonNumber.fromNat e.id)).toArray)]) (LlmAssemble.assembleResponsesV2 sp evs))
+    else
+      pure (jex (fun (m : LlmAssemble.Msg) => match m with
+        | .assistant c => Json.mkObj [("role", "assistant"), ("content", js c)]
+        | .exception e => Json.mkObj [("role", "exception"), ("index", Json.num (JsonNumber.fromNat e.id))]) (LlmAssemble.assembleResponses sp evs))
   | "gen" =>
     let s ← str j "s"
     let p ← parserOf ((optStr j "parser").getD "none")
